@@ -182,3 +182,12 @@ func Compare(want ref.Result, got sut.Result, output bool) error {
 	}
 	return nil
 }
+
+// OracleSelfTest runs the reference machine's ISO self-test; a non-empty result must stop the check as an
+// infrastructure error (the oracle, not the system under test, is broken).
+func OracleSelfTest() error {
+	if bad := ref.SelfTest(); len(bad) > 0 {
+		return fmt.Errorf("infrastructure: the reference machine fails its ISO self-test: %s", strings.Join(bad, " || "))
+	}
+	return nil
+}
